@@ -48,6 +48,7 @@ type RepProc struct {
 	Starts       int
 	held         bool // the supervisor is told to leave this replica down
 	lastStartLog int64
+	startedAt    time.Time
 }
 
 // Cluster is one volume: controller + replicas + model of acknowledged data.
@@ -76,6 +77,9 @@ type Cluster struct {
 	AckedN      int64
 	Events      []string
 	emu         sync.Mutex
+	Wedged      int32
+	lmu         sync.Mutex
+	lastModes   map[string]types.Mode
 }
 
 func (cl *Cluster) event(f string, a ...interface{}) {
@@ -145,6 +149,7 @@ func (cl *Cluster) StartRep(p *RepProc) error {
 		}
 	}
 	p.Starts++
+	p.startedAt = time.Now()
 	cl.event("start replica %d (%s) #%d", p.Idx, p.IP, p.Starts)
 	return nil
 }
@@ -198,9 +203,35 @@ func (cl *Cluster) Stop() {
 	time.Sleep(50 * time.Millisecond)
 }
 
-// Modes returns address -> mode under the controller lock.
+// Modes returns address -> mode under the controller lock. A controller whose
+// lock cannot be had for 45 s (more than ten rpc deadlines) is wedged: nothing
+// is served any more; the last view is returned and Wedged is set.
 func (cl *Cluster) Modes() map[string]types.Mode {
+	if atomic.LoadInt32(&cl.Wedged) != 0 {
+		cl.lmu.Lock()
+		defer cl.lmu.Unlock()
+		return cl.lastModes
+	}
+	got := false
+	for i := 0; i < 9000 && !got; i++ {
+		if got = cl.C.TryLock(); !got {
+			time.Sleep(5 * time.Millisecond)
+		}
+	}
+	if !got {
+		atomic.StoreInt32(&cl.Wedged, 1)
+		cl.event("the controller's lock has been held for 45 s: wedged")
+		cl.lmu.Lock()
+		defer cl.lmu.Unlock()
+		return cl.lastModes
+	}
+	cl.C.Unlock()
 	st := cl.C.VerifState()
+	defer func() {
+		cl.lmu.Lock()
+		cl.lastModes = cl.modesOf(st)
+		cl.lmu.Unlock()
+	}()
 	m := map[string]types.Mode{}
 	for _, r := range st.Replicas {
 		m[r.Address] = r.Mode
@@ -224,6 +255,9 @@ func (cl *Cluster) WaitRW(n int, d time.Duration) bool {
 	for time.Now().Before(end) {
 		if cl.CountMode(types.RW) >= n {
 			return true
+		}
+		if cl.IsWedged() {
+			return false
 		}
 		// supervisor: restart replicas that exited (a detached replica terminates itself)
 		for _, p := range cl.Reps {
@@ -387,3 +421,14 @@ func (p *RepProc) LogSize() int64 {
 	}
 	return st.Size()
 }
+
+func (cl *Cluster) modesOf(st controller.VerifState) map[string]types.Mode {
+	m := map[string]types.Mode{}
+	for _, r := range st.Replicas {
+		m[r.Address] = r.Mode
+	}
+	return m
+}
+
+// IsWedged tells whether the controller stopped giving up its lock.
+func (cl *Cluster) IsWedged() bool { return atomic.LoadInt32(&cl.Wedged) != 0 }
